@@ -1,6 +1,6 @@
 SPECIFICATION Spec
 CONSTANT Depth = 3
-CONSTANT Assume = {"A", "B", "C", "E"}
+CONSTANT Assume = {"C", "E"}
 CONSTRAINT Bound
 VIEW View
 INVARIANT Accepted
